@@ -16,6 +16,8 @@ import NanoVerif.Gen.FactoryParams
 namespace NanoVerif.Param
 open NanoVerif.Gen.ParamCheck NanoVerif.Gen
 
+set_option linter.unusedSectionVars false
+
 /-! ### the regenerated guards against the declared domain -/
 
 /-- `check(LE, a, b) ⇔ a ≤ b`, `check(LT, a, b) ⇔ a < b` -/
@@ -50,55 +52,6 @@ section
 variable {α : Type} [LT α] [LE α] [DecidableLT α] [DecidableLE α] [FOps α]
 
 /-! ### one parameter, any history -/
-
-/-- every wrapper around a generated `update`: in the domain afterwards when the parameter was in the domain -/
-private theorem ofUpd_range {β γ : Type} [LT β] [LE β] [DecidableLT β] [DecidableLE β] [IsFinite β]
-    (cast : γ → β) (p : Range β) (v : γ) (hp : p.InDomain) : (updateRange cast p v).1.InDomain := by
-  cases h : (updateRange cast p v).2
-  · rw [(updateRange_accept cast p v h).1]; exact (updateRange_accept cast p v h).2
-  · rw [updateRange_reject cast p v h]; exact hp
-
-private theorem ofUpd_pair {β γ : Type} [LT β] [LE β] [DecidableLT β] [DecidableLE β] [IsFinite β]
-    (cast : γ → β) (p : PRange β) (v1 v2 : γ) (hp : p.InDomain) : (updatePair cast p v1 v2).1.InDomain := by
-  cases h : (updatePair cast p v1 v2).2
-  · rw [(updatePair_accept cast p v1 v2 h).1]; exact (updatePair_accept cast p v1 v2 h).2
-  · rw [updatePair_reject cast p v1 v2 h]; exact hp
-
-private theorem ofUpd_enum (p : EnumP) (v : String) (hp : p.InDomain) : (updateEnum p v).1.InDomain := by
-  cases h : (updateEnum p v).2
-  · rw [(updateEnum_accept p v h).1]; exact (updateEnum_accept p v h).2
-  · rw [updateEnum_reject p v h]; exact hp
-
-private theorem setString_dom (s : Storage α) (v : String) (h : s.InDomain) : (setString s v).1.InDomain := by
-  unfold setString
-  cases s with
-  | mono => exact h
-  | str _ => trivial
-  | enum p => exact ofUpd_enum p v h
-  | irange p =>
-    simp only
-    split
-    · exact h
-    · exact ofUpd_range _ p _ h
-  | frange p =>
-    simp only
-    split
-    · exact h
-    · exact ofUpd_range _ p _ h
-  | iprange p =>
-    simp only
-    split
-    · exact h
-    · split
-      · exact h
-      · exact ofUpd_pair _ p _ _ h
-  | fprange p =>
-    simp only
-    split
-    · exact h
-    · split
-      · exact h
-      · exact ofUpd_pair _ p _ _ h
 
 /-- **step_preserves_domain**: whatever operation is applied — an assignment of an integer, a scalar (NaN and ±∞
     included), a pair, a string (numeric or garbage), an enumeration value, a typed read, a write+read — and
@@ -181,59 +134,6 @@ theorem reachable_in_domain (spec : Spec α) (s0 : Storage α) (h : make spec = 
   | nil => exact h0
   | cons op ops ih => exact ih (step s0 op).1 (step_preserves_domain s0 op h0)
 
-private theorem ofUpd_noop {σ : Type} (wrap : σ → Storage α) (r : σ × Bool) (p : σ)
-    (hrej : r.2 = true → r.1 = p) (h : (ofUpd wrap r).2.isThrow = true) : (ofUpd wrap r).1 = wrap p := by
-  unfold ofUpd at *
-  cases hr : r.2
-  · simp [hr, Res.isThrow] at h
-  · simp only [hrej hr]
-
-private theorem setString_noop (s : Storage α) (v : String) (h : (setString s v).2.isThrow = true) :
-    (setString s v).1 = s := by
-  unfold setString at *
-  cases s with
-  | mono => rfl
-  | str _ => simp [Res.isThrow] at h
-  | enum p => exact ofUpd_noop _ _ p (updateEnum_reject p v) h
-  | irange p =>
-    simp only at h ⊢
-    split
-    · rfl
-    · rename_i x hx
-      rw [hx] at h
-      exact ofUpd_noop _ _ p (updateRange_reject _ p x) h
-  | frange p =>
-    simp only at h ⊢
-    split
-    · rfl
-    · rename_i x hx
-      rw [hx] at h
-      exact ofUpd_noop _ _ p (updateRange_reject _ p x) h
-  | iprange p =>
-    simp only at h ⊢
-    split
-    · rfl
-    · rename_i x2 hx2
-      rw [hx2] at h
-      simp only at h ⊢
-      split
-      · rfl
-      · rename_i x1 hx1
-        rw [hx1] at h
-        exact ofUpd_noop _ _ p (updatePair_reject _ p x1 x2) h
-  | fprange p =>
-    simp only at h ⊢
-    split
-    · rfl
-    · rename_i x2 hx2
-      rw [hx2] at h
-      simp only at h ⊢
-      split
-      · rfl
-      · rename_i x1 hx1
-        rw [hx1] at h
-        exact ofUpd_noop _ _ p (updatePair_reject _ p x1 x2) h
-
 /-- **rejected_is_noop**: an operation that throws (value outside the domain, NaN, malformed text, wrong type,
     mismatched read) leaves the previous value — the whole stored alternative — intact. -/
 theorem rejected_is_noop (s : Storage α) (op : Op α) (h : (step s op).2.isThrow = true) : (step s op).1 = s := by
@@ -260,71 +160,6 @@ theorem rejected_is_noop (s : Storage α) (op : Op α) (h : (step s op).2.isThro
 /-- **read_is_pure**: typed reads and the write+read round trip never change what is stored. -/
 theorem read_is_pure (s : Storage α) (op : Op α) (h : op.isAssign = false) : (step s op).1 = s := by
   cases op <;> first | (simp [Op.isAssign] at h; done) | (cases s <;> rfl) | rfl
-
-private theorem ofUpd_ok {σ : Type} (wrap : σ → Storage α) (r : σ × Bool) (h : (ofUpd wrap r).2 = Res.ok) :
-    r.2 = false ∧ (ofUpd wrap r).1 = wrap r.1 := by
-  unfold ofUpd at *
-  cases hr : r.2
-  · exact ⟨rfl, rfl⟩
-  · simp [hr] at h
-
-private theorem setString_reads_back (s : Storage α) (v : String) (hok : (setString s v).2 = Res.ok) :
-    ∃ r, requested s (.setString v) = some r ∧
-      step (setString s v).1 ((setString s v).1.readOp) = ((setString s v).1, r) := by
-  unfold setString at *
-  cases s with
-  | mono => simp at hok
-  | str _ => exact ⟨.string v, rfl, rfl⟩
-  | enum p =>
-    have h1 := ofUpd_ok _ _ hok
-    refine ⟨.enumv v, rfl, ?_⟩
-    simp only [h1.2, (updateEnum_accept p v h1.1).1, Storage.readOp, step]
-  | irange p =>
-    simp only at hok ⊢
-    cases hx : stoll v with
-    | error e => rw [hx] at hok; simp at hok
-    | ok x =>
-      rw [hx] at hok
-      have h1 := ofUpd_ok _ _ hok
-      refine ⟨.int x, by simp [requested, hx, Except.toOption'], ?_⟩
-      simp only [h1.2, (updateRange_accept _ p x h1.1).1, Storage.readOp, step]
-  | frange p =>
-    simp only at hok ⊢
-    cases hx : (FOps.stod v : Except Err α) with
-    | error e => rw [hx] at hok; simp at hok
-    | ok x =>
-      rw [hx] at hok
-      have h1 := ofUpd_ok _ _ hok
-      refine ⟨.float x, by simp [requested, hx, Except.toOption'], ?_⟩
-      simp only [h1.2, (updateRange_accept _ p x h1.1).1, Storage.readOp, step]
-  | iprange p =>
-    simp only at hok ⊢
-    cases hx2 : stoll (splitPair v).2 with
-    | error e => rw [hx2] at hok; simp at hok
-    | ok x2 =>
-      rw [hx2] at hok
-      simp only at hok ⊢
-      cases hx1 : stoll (splitPair v).1 with
-      | error e => rw [hx1] at hok; simp at hok
-      | ok x1 =>
-        rw [hx1] at hok
-        have h1 := ofUpd_ok _ _ hok
-        refine ⟨.pairInt x1 x2, by simp [requested, hx1, hx2, Except.toOption'], ?_⟩
-        simp only [h1.2, (updatePair_accept _ p x1 x2 h1.1).1, Storage.readOp, step]
-  | fprange p =>
-    simp only at hok ⊢
-    cases hx2 : (FOps.stod (splitPair v).2 : Except Err α) with
-    | error e => rw [hx2] at hok; simp at hok
-    | ok x2 =>
-      rw [hx2] at hok
-      simp only at hok ⊢
-      cases hx1 : (FOps.stod (splitPair v).1 : Except Err α) with
-      | error e => rw [hx1] at hok; simp at hok
-      | ok x1 =>
-        rw [hx1] at hok
-        have h1 := ofUpd_ok _ _ hok
-        refine ⟨.pairFloat x1 x2, by simp [requested, hx1, hx2, Except.toOption'], ?_⟩
-        simp only [h1.2, (updatePair_accept _ p x1 x2 h1.1).1, Storage.readOp, step]
 
 /-- **accepted_reads_back**: an accepted assignment is read back — by the typed read of the parameter's kind,
     which does not change the parameter — as the assigned value converted to the parameter's integer / scalar
@@ -401,27 +236,6 @@ theorem mismatched_assign_throws (s : Storage α) (op : Op α) (hop : op.isAssig
 
 /-! ### configurable objects -/
 
-private theorem find?_none_of_not_mem (c : Config α) (name : String) (h : name ∉ c.names) : c.find? name = none := by
-  unfold Config.find?
-  have : c.params.find? (fun p => p.1 == name) = none := by
-    rw [List.find?_eq_none]
-    intro p hp hpe
-    apply h
-    simp only [Config.names, List.mem_map]
-    exact ⟨p, hp, by simpa using hpe⟩
-  rw [this]
-
-private theorem find?_some_of_mem (c : Config α) (name : String) (h : name ∈ c.names) :
-    ∃ s, c.find? name = some s := by
-  unfold Config.find?
-  simp only [Config.names, List.mem_map] at h
-  obtain ⟨p, hp, hpe⟩ := h
-  cases hf : c.params.find? (fun p => p.1 == name) with
-  | none =>
-    rw [List.find?_eq_none] at hf
-    exact absurd (by simpa using hpe) (hf p hp)
-  | some q => exact ⟨q.2, rfl⟩
-
 /-- **unknown_name_throws**: looking up a name that was never registered throws (whatever one wanted to do with
     the parameter) and `parameter_if` answers null. -/
 theorem unknown_name_throws (c : Config α) (name : String) (op : Op α) (h : name ∉ c.names) :
@@ -446,33 +260,7 @@ theorem register_then_found (c : Config α) (name : String) (s : Storage α) (h 
     cases hq : c.params.find? (fun p => p.1 == name) with
     | none => rfl
     | some q => rw [hq] at hf; cases hf
-  simp [Config.register, Config.has, hf, Config.names, Config.find?, List.find?_append, hn]
-
-private theorem setFirst_mem (name : String) (s : Storage α) (ps : List (String × Storage α))
-    (p : String × Storage α) (hp : p ∈ Config.setFirst name s ps) : p ∈ ps ∨ p.2 = s := by
-  induction ps with
-  | nil => simp [Config.setFirst] at hp
-  | cons q qs ih =>
-    simp only [Config.setFirst] at hp
-    split at hp
-    · rcases List.mem_cons.1 hp with h | h
-      · right; rw [h]
-      · left; exact List.mem_cons_of_mem _ h
-    · rcases List.mem_cons.1 hp with h | h
-      · left; rw [h]; exact List.mem_cons_self
-      · rcases ih h with h' | h'
-        · left; exact List.mem_cons_of_mem _ h'
-        · right; exact h'
-
-private theorem find?_mem (c : Config α) (name : String) (s : Storage α) (h : c.find? name = some s) :
-    ∃ p ∈ c.params, p.2 = s := by
-  unfold Config.find? at h
-  cases hq : c.params.find? (fun p => p.1 == name) with
-  | none => rw [hq] at h; cases h
-  | some q =>
-    rw [hq] at h
-    cases h
-    exact ⟨q, List.mem_of_find?_eq_some hq, rfl⟩
+  simp [Config.register, Config.has, Config.names, Config.find?, List.find?_append, hn]
 
 /-- **config_preserves_domain**: every registered parameter of a configurable object stays inside its domain
     under any lookup-and-operate step (`parameter(name) = value`, `config(name, value)`, typed reads), and
@@ -505,16 +293,6 @@ end
 
 /-! ### what the factories hand out (table regenerated from the implementation on every run) -/
 
-/-- the constructor accepts the stored default again (through the regenerated guards) -/
-def constructible : Storage XF → Bool
-  | .mono => true
-  | .str _ => true
-  | .enum p => !(updateEnum p p.value).2
-  | .irange p => !(updateRange (fun (x : Int) => x) p p.value).2
-  | .frange p => !(updateRange (fun (x : XF) => x) p p.value).2
-  | .iprange p => !(updatePair (fun (x : Int) => x) p p.value1 p.value2).2
-  | .fprange p => !(updatePair (fun (x : XF) => x) p p.value1 p.value2).2
-
 /-- **defaults_in_domain**: every default of every parameter registered by every object obtainable from the 11
     factories (solvers, line-searches, losses, splitters, tuners, generators, weak learners, linear models, data
     sources, functions) is inside its declared domain — evaluated by the kernel on exact doubles. -/
@@ -535,36 +313,40 @@ theorem type_ids_match :
 
 /-! ### non-vacuity -/
 
+private def exI : Storage XF := .irange ⟨5, 0, 10, .le, .lt⟩
+private def exOne : XF := .fin false 4503599627370496 (-52)
+private def exF : Storage XF := .frange ⟨exOne, .fin false 0 (-1074), exOne, .lt, .le⟩
+private def exP : Storage XF := .iprange ⟨1, 2, 0, 5, .le, .lt, .le⟩
+
 /-- an integer parameter `0 <= v < 10`: accepted, rejected at the excluded bound, rejected garbage, read back -/
 example :
-    let s0 : Storage XF := .irange ⟨5, 0, 10, .le, .lt⟩
-    (make (.int ⟨5, 0, 10, .le, .lt⟩) = .ok s0 ∧ s0.InDomain) ∧
-    ((step s0 (.setInt 0)).2.isThrow = false ∧ (step s0 (.setInt 10)).2.isThrow = true ∧
-      (step s0 (.setInt 9)).2.isThrow = false) ∧
-    ((step s0 (.setString "7x")).1 = Storage.irange ⟨7, 0, 10, .le, .lt⟩) ∧
-    ((step s0 (.setString "x7")).2.isThrow = true) ∧
-    ((step s0 .readString).2.isThrow = true) := by
+    (Except.toOption' (make (.int ⟨5, 0, 10, .le, .lt⟩)) = some exI ∧ exI.InDomain) ∧
+    ((step exI (.setInt 0)).2.isThrow = false ∧ (step exI (.setInt 10)).2.isThrow = true ∧
+      (step exI (.setInt 9)).2.isThrow = false) ∧
+    ((step exI (.setString "7x")).1 = Storage.irange ⟨7, 0, 10, .le, .lt⟩) ∧
+    ((step exI (.setString "x7")).2.isThrow = true) ∧
+    ((step exI .readString).2.isThrow = true) ∧
+    Except.toOption' (make (.int ⟨10, 0, 10, .le, .lt⟩ : Spec XF)) = none := by
   decide +kernel
 
-/-- a scalar parameter `0 < v <= 1` on exact doubles: NaN, +∞, 0 and the double after 1 are rejected, 1 and the
+/-- a scalar parameter `0 < v <= 1` on exact doubles: NaN, +∞, -0 and the double after 1 are rejected, 1 and the
     smallest subnormal are accepted; "1e-400" is a range error of `std::stod`, "0x1p-1" is 0.5 -/
 example :
-    let one : XF := .fin false 4503599627370496 (-52)
-    let s0 : Storage XF := .frange ⟨one, .fin false 0 (-1074), one, .lt, .le⟩
-    ((step s0 (.setFloat .nan)).2.isThrow = true ∧ (step s0 (.setFloat (.inf false))).2.isThrow = true ∧
-      (step s0 (.setFloat (.fin true 0 (-1074)))).2.isThrow = true ∧
-      (step s0 (.setFloat (.fin false 4503599627370497 (-52)))).2.isThrow = true) ∧
-    ((step s0 (.setFloat one)).2.isThrow = false ∧ (step s0 (.setFloat (.fin false 1 (-1074)))).2.isThrow = false) ∧
-    (stodXF "1e-400" = .error .outOfRange ∧ stodXF "0x1p-1" = .ok (.fin false 4503599627370496 (-53)) ∧
-      stodXF "abc" = .error .invalidArgument ∧ stodXF "0.1" = .ok (.fin false 7205759403792794 (-56))) := by
+    ((step exF (.setFloat .nan)).2.isThrow = true ∧ (step exF (.setFloat (.inf false))).2.isThrow = true ∧
+      (step exF (.setFloat (.fin true 0 (-1074)))).2.isThrow = true ∧
+      (step exF (.setFloat (.fin false 4503599627370497 (-52)))).2.isThrow = true) ∧
+    ((step exF (.setFloat exOne)).2.isThrow = false ∧ (step exF (.setFloat (.fin false 1 (-1074)))).2.isThrow = false) ∧
+    (Except.toOption' (stodXF "1e-400") = none ∧
+      Except.toOption' (stodXF "0x1p-1") = some (.fin false 4503599627370496 (-53)) ∧
+      Except.toOption' (stodXF "abc") = none ∧
+      Except.toOption' (stodXF "0.1") = some (.fin false 7205759403792794 (-56))) := by
   decide +kernel
 
 /-- an ordered pair `0 <= v1 < v2 <= 5`: out of order and equal pairs are rejected, the string "1;x;4" is (1, 4) -/
 example :
-    let s0 : Storage XF := .iprange ⟨1, 2, 0, 5, .le, .lt, .le⟩
-    (step s0 (.setPairInt 3 3)).2.isThrow = true ∧ (step s0 (.setPairInt 4 3)).2.isThrow = true ∧
-    (step s0 (.setPairInt 0 5)).2.isThrow = false ∧
-    (step s0 (.setString "1;x;4")).1 = Storage.iprange ⟨1, 4, 0, 5, .le, .lt, .le⟩ := by
+    (step exP (.setPairInt 3 3)).2.isThrow = true ∧ (step exP (.setPairInt 4 3)).2.isThrow = true ∧
+    (step exP (.setPairInt 0 5)).2.isThrow = false ∧
+    (step exP (.setString "1;x;4")).1 = Storage.iprange ⟨1, 4, 0, 5, .le, .lt, .le⟩ := by
   decide +kernel
 
 /-- the table is not empty and contains constrained parameters of every numeric kind -/
@@ -574,12 +356,12 @@ example : FactoryParams.table.length > 100 ∧
     FactoryParams.table.any (fun e => e.params.any (fun p => match p.2 with | .enum _ => true | _ => false)) = true := by
   decide +kernel
 
+private def exC : Config XF := ((Config.empty : Config XF).register "a" (.irange ⟨5, 0, 10, .le, .le⟩)).1
+
 /-- a configurable object: duplicate registration and unknown names -/
 example :
-    let c0 : Config XF := Config.empty
-    let c1 := (c0.register "a" (.irange ⟨5, 0, 10, .le, .le⟩)).1
-    (c1.register "a" .mono).2 = true ∧ (c1.applyAt "b" .readInt).2.isThrow = true ∧
-    (c1.applyAt "a" (.setInt 7)).2.isThrow = false := by
+    (exC.register "a" .mono).2 = true ∧ (exC.applyAt "b" .readInt).2.isThrow = true ∧
+    (exC.applyAt "a" (.setInt 7)).2.isThrow = false ∧ (exC.applyAt "a" (.setInt 11)).2.isThrow = true := by
   decide +kernel
 
 end NanoVerif.Param
